@@ -12,5 +12,8 @@ TNext == /\ bad = "" /\ l <= Len(T.ev)
          /\ Consume(T.ev[l], PinMode(T), ButtonsOf(T))
          /\ l' = l + 1 /\ UNCHANGED tid
 Done == bad # "" \/ l > Len(T.ev)
-Verdict == Done => PrintT(ToJson([id |-> T.id, ok |-> bad = "", l |-> l - 1, clause |-> bad]))
+(* a re-laid-out script (comments, blank lines, trailing comments on headers) must behave exactly like its plain twin *)
+TwinDiff == IF T.ev = T.twin THEN "" ELSE "re-layout-changes-behaviour"
+Verdict == Done => PrintT(ToJson([id |-> T.id, ok |-> (bad = "" /\ TwinDiff = ""), l |-> l - 1,
+                                  clause |-> (IF bad # "" THEN bad ELSE TwinDiff)]))
 =============================================================================
